@@ -232,6 +232,11 @@ def c01(rep, tier):
                 why.append('additional effects: %s' % [lp_show(x[1]) for x in extra])
         if why is None:
             continue
+        others = [n for n in vm.roles.get('other', []) if any(n in w for w in why)]
+        if why and others:
+            A.unknown(inst, 'the handler reads or writes VM state outside the model (%s): whether it meets the contract depends on an invariant of that '
+                            'state which this rule does not decide; deviations seen: %s' % (', '.join(others), '; '.join(dict.fromkeys(why))[:300]))
+            continue
         if spec['returns'] == 'stepping':
             pass   # decided by C06.a
         A.check(not why, inst, 'meets the contract in spec/isa.json (%d path(s))' % len(ps), '; '.join(dict.fromkeys(why)), WV,
